@@ -1,0 +1,50 @@
+//go:build verif
+
+// Contracts for the deductive verifier in /verif (govc). This file contains comments
+// only; it is compiled only with the build tag "verif" and then adds nothing but the
+// package clause.
+
+package divider
+
+//@ pred distinct(s)
+//@   [*] forall a, b :: 0 <= a && a < b && b < len(s) ==> s[a] != s[b]
+
+// C14 for Fair: exactly the dividend is added, spread evenly, the extra units go to the
+// first (highest) priorities, nothing else changes.
+//@ func Fair
+//@   requires [*] distinct(priorities)
+//@   requires [*] no-overflow: distribution != nil ==> msum(distribution) + dividend < two64
+//@   modifies content(distribution)
+//@   ensures [C14] conservation: (distribution != nil && len(priorities) > 0) ==> msum(distribution) == old(msum(distribution)) + dividend
+//@   ensures [C14] nothing-for-an-empty-list: (distribution == nil || len(priorities) == 0) ==> (forall k :: distribution[k] == old(distribution[k]))
+//@   ensures [C14] fair-increments: (distribution != nil && len(priorities) > 0) ==> (forall j :: 0 <= j && j < len(priorities) ==>
+//@            distribution[priorities[j]] == old(distribution[priorities[j]]) + dividend / len(priorities) + ite(j < dividend % len(priorities), 1, 0))
+//@   ensures [C14] frame: forall k :: (forall j :: 0 <= j && j < len(priorities) ==> priorities[j] != k) ==> (distribution[k] == old(distribution[k]) && (dom(distribution, k) <==> old(dom(distribution, k))))
+//@   loop 0
+//@     invariant [*] base == dividend / len(priorities) && divider == len(priorities)
+//@     invariant [* C14] ($i <= dividend % len(priorities) ==> remainder == dividend % len(priorities) - $i) && ($i >= dividend % len(priorities) ==> remainder == 0)
+//@     invariant [* C14] msum(distribution) == old(msum(distribution)) + base * $i + min($i, dividend % len(priorities))
+//@     invariant [* C14] forall j :: 0 <= j && j < $i ==> distribution[priorities[j]] == old(distribution[priorities[j]]) + base + ite(j < dividend % len(priorities), 1, 0)
+//@     invariant [* C14] forall j :: $i <= j && j < len(priorities) ==> distribution[priorities[j]] == old(distribution[priorities[j]])
+//@     invariant [* C14] forall k :: (forall j :: 0 <= j && j < $i ==> priorities[j] != k) ==> (distribution[k] == old(distribution[k]) && (dom(distribution, k) <==> old(dom(distribution, k))))
+
+// C14 for Rate: conservation and frame on all three exits (truncation, normal, leftover to
+// the first priority). The proportional part of a priority is the float expression
+// uint(math.Round(dividend/sum * priority)); floats are uninterpreted, so what is proved of
+// it is what follows from monotonicity: increments are non-increasing along a descending list.
+//@ func Rate
+//@   requires [*] distinct(priorities)
+//@   requires [*] no-overflow: distribution != nil ==> msum(distribution) + dividend < two64
+//@   requires [*] lsum(priorities, len(priorities)) < two64
+//@   modifies content(distribution)
+//@   ensures [C14] conservation: (distribution != nil && len(priorities) > 0) ==> msum(distribution) == old(msum(distribution)) + dividend
+//@   ensures [C14] nothing-for-an-empty-list: (distribution == nil || len(priorities) == 0) ==> (forall k :: distribution[k] == old(distribution[k]))
+//@   ensures [C14] frame: forall k :: (forall j :: 0 <= j && j < len(priorities) ==> priorities[j] != k) ==> (distribution[k] == old(distribution[k]) && (dom(distribution, k) <==> old(dom(distribution, k))))
+//@   ensures [C14] increments-non-increasing: (strictlyDesc(priorities) && lsum(priorities, len(priorities)) > 0) ==> (forall a, b :: 0 <= a && a < b && b < len(priorities) ==>
+//@            distribution[priorities[a]] - old(distribution[priorities[a]]) >= distribution[priorities[b]] - old(distribution[priorities[b]]))
+//@   loop 0
+//@     invariant [* C14] divider == lsum(priorities, len(priorities)) && base == fdiv(u2f(dividend), u2f(divider))
+//@     invariant [C14] forall j :: 0 <= j && j < $i ==> distribution[priorities[j]] == old(distribution[priorities[j]]) + f2u(fround(fmul(base, u2f(priorities[j]))))
+//@     invariant [C14] forall j :: $i <= j && j < len(priorities) ==> distribution[priorities[j]] == old(distribution[priorities[j]])
+//@     invariant [* C14] msum(distribution) + remainder == old(msum(distribution)) + dividend && remainder <= dividend
+//@     invariant [* C14] forall k :: (forall j :: 0 <= j && j < $i ==> priorities[j] != k) ==> (distribution[k] == old(distribution[k]) && (dom(distribution, k) <==> old(dom(distribution, k))))
